@@ -175,6 +175,71 @@ pub fn gen(rng: &mut Rng, tier: &str, dist: &mut Dist) -> Vec<String> {
         let o1 = gen_opts(rng, false, 1 << 16);
         cmds.push(format!("lzma1enc {} 0 none {}", o1.to_string(), hex_parts(&parts)));
     }
+    // structured cases at option borders (kept small: dictionaries of a few KiB)
+    // (a) data periodic with a period right at the dictionary size: the nearest earlier occurrence
+    //     is dict-1 / dict / dict+1 / dict+2 bytes back, for both match finders and both modes
+    for &dict in &[4096u32, 5000, 8192] {
+        for delta in [-1i64, 0, 1, 2] {
+            let period = (dict as i64 + delta) as usize;
+            let base = gen_data_len(rng, "random", period);
+            let mut data = Vec::with_capacity(2 * period + 400);
+            while data.len() < 2 * period + 400 {
+                let take = (2 * period + 400 - data.len()).min(period);
+                data.extend_from_slice(&base[..take]);
+            }
+            for (mode, mf) in [(0u32, 0u32), (0, 1), (1, 0), (1, 1)] {
+                let mut o = gen_opts(rng, true, 1 << 16);
+                o.dict = dict;
+                o.mode = mode;
+                o.mf = mf;
+                let lens = gen_partition(rng, "pow2", data.len());
+                let parts = split_by(&data, &lens);
+                dist.bump("border.period_at_dict");
+                if rng.chance(1, 2) {
+                    cmds.push(format!("lzma2enc {} 0 none {} .", o.to_string(), hex_parts(&parts)));
+                } else {
+                    cmds.push(format!("lzma1enc {} {} none {}", o.to_string(), rng.below(4), hex_parts(&parts)));
+                }
+            }
+        }
+    }
+    // (b) LZMA2 with several independent units: compressible data longer than a few chunk sizes,
+    //     written in small pieces (units restart only at the top of write()), all lc values
+    for k in 0..(if tier == "thorough" { 60 } else { 18 }) {
+        let mut o = gen_opts(rng, true, 1 << 16);
+        o.dict = *rng.pick(&[4096u32, 4096, 5000, 8192]);
+        o.lc = [0u32, 3, 4, 1][k % 4];
+        o.lp = if o.lc + o.lp > 4 { 0 } else { o.lp };
+        let chunk = *rng.pick(&[1u64, o.dict as u64, o.dict as u64 + 1000]);
+        let class = *rng.pick(&["text", "mixed", "runs", "lowentropy", "copyfar"]);
+        let len = (3 + rng.below(3) as usize) * (chunk.max(o.dict as u64) as usize) + rng.below(3000) as usize;
+        let data = gen_data_len(rng, class, len);
+        let piece = *rng.pick(&[1000usize, 4096, 8192, 333]);
+        let parts: Vec<Vec<u8>> = data.chunks(piece).map(|c| c.to_vec()).collect();
+        let flushes: Vec<usize> = if rng.chance(1, 3) { (0..parts.len()).filter(|_| rng.chance(1, 5)).collect() } else { vec![] };
+        dist.bump("border.multi_unit_lzma2");
+        cmds.push(format!("lzma2enc {} {} none {} {}", o.to_string(), chunk, hex_parts(&parts), ints(&flushes)));
+    }
+    // (c) preset dictionary longer than / equal to / shorter than the dictionary, dictionary sizes
+    //     that are not multiples of 16, data that copies the far start of the preset
+    for &dict in &[4097u32, 5000, 8192] {
+        for &plen in &[300usize, 4096, 5000, 9000] {
+            let preset = gen_data_len(rng, "random", plen);
+            let mut data = preset[..200.min(plen)].to_vec();
+            data.extend_from_slice(&gen_data_len(rng, "text", 300));
+            data.extend_from_slice(&preset[plen / 2..(plen / 2 + 150).min(plen)]);
+            let mut o = gen_opts(rng, true, 1 << 16);
+            o.dict = dict;
+            o.lp = *rng.pick(&[0u32, 2]);
+            o.lc = if o.lp > 0 { 2 } else { 3 };
+            o.pb = *rng.pick(&[0u32, 2, 4]);
+            let lens = gen_partition(rng, "pow2", data.len());
+            let parts = split_by(&data, &lens);
+            dist.bump("border.preset_vs_dict");
+            cmds.push(format!("lzma1enc {} {} {} {}", o.to_string(), 2 + rng.below(2), hex(&preset), hex_parts(&parts)));
+            cmds.push(format!("lzma2enc {} 0 {} {} .", o.to_string(), hex(&preset), hex_parts(&parts)));
+        }
+    }
     // regression classes of two repaired defects (see known-findings.txt, fixed: C01):
     // (1) dictionary < 64 KiB, incompressible data long enough for the window to move, then an
     //     uncompressed fallback chunk; (2) independent unit that starts with an uncompressed chunk
